@@ -841,6 +841,8 @@ def judge_o_polygon(inp, obs, lr):
         return {"expected": "circle parameters of the edges", "observed": obs, "tags": dict(tags, exc=obs["exc"])}
     if not obs["shape_ok"]:
         return {"expected": "one circle per edge (flattened to one axis when flatten=True)", "observed": obs["shapes"], "tags": dict(tags, what="shape")}
+    if inp["model"] == "halfspace" and obs["rmax"] > 50:
+        return None      # an edge's geodesic passes close to the half-space point at infinity: outside the property's quantifier
     if not obs["edges_same"] <= 1e-9:
         return {"expected": "polygon circle parameters = those of its edge segments", "observed": obs["edges_same"], "tags": dict(tags, what="edges")}
     if not (obs["ends"] <= 1e-5 and obs["inside"] <= 1e-5 and obs["on_segment"] <= 1e-5):
@@ -925,6 +927,162 @@ def judge_o_horo_comp(inp, obs, lr):
     return None
 
 
+# ---- histories: query, then move / overwrite the object, then query again -------------------------------------------
+# Every answer must depend only on the object's CURRENT data: after each step the queries are compared with those of a
+# fresh object built from a copy of the current data.
+H_KINDS = ["segment", "geodesic", "hyperplane", "subspace", "horosphere"]
+H_OPS = ["query", "query", "transform", "transform_apply", "setitem", "set", "flatten", "getitem"]
+
+
+def _h_unit(rng, kind, dim):
+    if kind == "segment":
+        while True:
+            k1, k2 = G.fball(rng, dim, 0.9), G.fball(rng, dim, 0.9)
+            if np.linalg.norm(np.array(k1) - np.array(k2)) > 0.2 and np.linalg.norm(np.cross(np.array(k1 + [0] * (3 - dim))[:3], np.array(k2 + [0] * (3 - dim))[:3])) > 0.03:
+                return [[1.0] + k1, [1.0] + k2]
+    if kind == "geodesic":
+        while True:
+            k1, k2 = G.fsphere(rng, dim), G.fsphere(rng, dim)
+            if np.linalg.norm(np.array(k1) - np.array(k2)) > 0.4 and np.linalg.norm(np.array(k1) + np.array(k2)) > 0.4:
+                return [[1.0] + k1, [1.0] + k2]
+    if kind == "hyperplane":
+        while True:
+            d = np.array([rng.gauss(0, 0.4)] + [rng.gauss(0, 1) for _ in range(dim)])
+            if G.mink(d, d) > 0.4 and abs(d[0]) > 0.05:
+                return d.tolist()
+    if kind == "subspace":
+        while True:
+            ks = np.array([G.fsphere(rng, dim) for _ in range(dim)])
+            T = ks[1:] - ks[0]
+            if np.linalg.svd(T, compute_uv=False)[-1] > 0.4:
+                foot = ks[0] - ks[0] @ np.linalg.pinv(T) @ T
+                if 0.2 < np.linalg.norm(foot) < 0.9:
+                    return [[1.0] + k.tolist() for k in ks]
+    if kind == "horosphere":
+        return [[1.0] + G.fsphere(rng, dim), [1.0] + G.fball(rng, dim, 0.8)]
+
+
+def gen_o_hist(rng, n):
+    for _ in range(n):
+        dim = rng.choice([2, 2, 3])
+        kind = rng.choice(H_KINDS)
+        cnt = rng.choice([0, 0, 2, 3])          # 0: a single object
+        units = [_h_unit(rng, kind, dim) for _ in range(max(cnt, 1))]
+        steps = [{"op": "query"}]
+        for _ in range(rng.randint(3, 6)):
+            op = rng.choice(H_OPS)
+            st = {"op": op}
+            if op in ("transform", "transform_apply"):
+                st["g"] = G.float_iso(rng, dim, k=2, tmax=0.7).tolist()
+            elif op in ("setitem", "set"):
+                st["unit"] = _h_unit(rng, kind, dim)
+                st["i"] = rng.randrange(max(cnt, 1))
+            elif op == "getitem":
+                st["i"] = rng.randrange(max(cnt, 1))
+            steps.append(st)
+        steps.append({"op": "query"})
+        yield {"dim": dim, "kind": kind, "cnt": cnt, "units": units, "steps": steps, "degrees": rng.random() < 0.5}
+
+
+def _h_build(kind, data):
+    data = np.array(data, dtype=float)
+    if kind == "segment":
+        return H.Segment(data.copy())
+    if kind == "geodesic":
+        return H.Geodesic(data.copy())
+    if kind == "hyperplane":
+        return H.Hyperplane(data.copy())
+    if kind == "subspace":
+        return H.Subspace(data.copy())
+    return H.Horosphere(data.copy())
+
+
+def _h_fresh(kind, obj):
+    """a new object of the same class from a copy of the current data (and nothing else)"""
+    cls = {"segment": H.Segment, "geodesic": H.Geodesic, "hyperplane": H.Hyperplane, "subspace": H.Subspace, "horosphere": H.Horosphere}[kind]
+    return cls(np.array(obj.proj_data, dtype=float).copy())
+
+
+def _rows_sorted(a):
+    """an ideal basis is an unordered set of points: sort the rows of every unit"""
+    a = np.array(a, dtype=float)
+    flat = a.reshape((-1,) + a.shape[-2:]).copy()
+    for j in range(len(flat)):
+        flat[j] = np.array(sorted(np.round(flat[j], 9).tolist()))
+    return flat.reshape(a.shape)
+
+
+def _h_query(kind, obj, dim, degrees):
+    out = []
+    for model in ("poincare", "halfspace"):
+        c, r = obj.sphere_parameters(model)
+        out += [np.array(c, dtype=float), np.array(r, dtype=float)]
+        if kind in ("segment", "geodesic") and dim == 2:
+            c2, r2, th = obj.circle_parameters(degrees=degrees, model=model)
+            out += [np.array(c2, dtype=float), np.array(r2, dtype=float), np.array(th, dtype=float)]
+        if kind != "horosphere":
+            out.append(_rows_sorted(obj.ideal_basis_coords(model)))
+    if kind == "segment":
+        out.append(_rows_sorted(obj.ideal_endpoint_coords("klein")))
+    return out
+
+
+def run_o_hist(inp):
+    dim, kind, cnt = inp["dim"], inp["kind"], inp["cnt"]
+    if kind == "hyperplane":
+        obj = H.Hyperplane(np.array(inp["units"] if cnt else inp["units"][0]), normals_only=True)
+    else:
+        obj = _h_build(kind, inp["units"] if cnt else inp["units"][0])
+    log = []
+    for k, st in enumerate(inp["steps"]):
+        op = st["op"]
+        if op == "query":
+            got = _h_query(kind, obj, dim, inp["degrees"])
+            want = _h_query(kind, _h_fresh(kind, obj), dim, inp["degrees"])
+            ok = len(got) == len(want) and all(a.shape == b.shape and np.all(np.abs(a - b) <= 2e-5 * (1 + np.max(np.abs(b)))) for a, b in zip(got, want))
+            # the answer also has to be right in itself: the defining points lie on the reported Poincare sphere
+            c, r = got[0], got[1]
+            if kind == "horosphere":
+                pts = np.array(H.Point(np.array(obj.proj_data, dtype=float)[..., 1:, :].copy()).coords("poincare"), dtype=float)
+            elif kind == "segment":
+                pts = np.array(obj.endpoint_coords("poincare"), dtype=float)
+            else:
+                pts = np.array(obj.ideal_basis_coords("poincare"), dtype=float)
+            res = float(np.max(np.abs(np.linalg.norm(pts - np.expand_dims(c, -2), axis=-1) - np.expand_dims(r, -1)) / (1 + np.expand_dims(r, -1))))
+            log.append({"k": k, "op": op, "same_as_fresh": bool(ok), "on_sphere": res})
+        elif op == "transform":
+            obj = H.Isometry(np.array(st["g"])) @ obj
+        elif op == "transform_apply":
+            obj = H.Isometry(np.array(st["g"])).apply(obj)
+        elif op == "flatten":
+            obj = obj.flatten_to_unit()
+        elif op == "getitem":
+            if cnt and len(obj.shape) >= 1:
+                obj = obj[st["i"] % obj.shape[0]:][:2]
+        elif op == "setitem":
+            if cnt and len(obj.shape) >= 1:
+                new = H.Hyperplane(np.array(st["unit"])) if kind == "hyperplane" else _h_build(kind, st["unit"])
+                obj[st["i"] % obj.shape[0]] = new
+        elif op == "set":
+            new = H.Hyperplane(np.array(st["unit"])) if kind == "hyperplane" else _h_build(kind, st["unit"])
+            if len(obj.shape) == 0:
+                obj.set(np.array(new.proj_data, dtype=float).copy())
+    return {"log": log}
+
+
+def judge_o_hist(inp, obs, lr):
+    ops = [st["op"] for st in inp["steps"]]
+    tags = {"kind": inp["kind"], "dim": inp["dim"], "composite": bool(inp["cnt"])}
+    if "exc" in obs:
+        return {"expected": "history runs", "observed": obs, "tags": dict(tags, exc=obs["exc"], ops=ops[:7])}
+    for e in obs["log"]:
+        if not (e["same_as_fresh"] and e["on_sphere"] <= 1e-5):
+            before = ops[:e["k"]]
+            return {"expected": "queries depend only on the current data (same as a fresh object), defining points on the reported sphere", "observed": e,
+                    "tags": dict(tags, after=[o for o in before if o != "query"][-2:], queried_before=before.count("query") > 0)}
+    return None
+
+
 CLAUSES = [
     Clause("ideal_corr", "corr", gen_ideal, run_ideal, judge_ideal, lean=lean_ideal, site="hyperbolic.Segment._compute_aux_data",
            budget={"quick": 120, "thorough": 3000}, what="Segment ideal endpoints vs Lean segmentIdeal over Q (dims 2-4, Klein-normalised and rescaled representatives)"),
@@ -943,6 +1101,10 @@ CLAUSES = [
            budget={"quick": 120, "thorough": 4000},
            what="array-valued segments and geodesics (2-8 units, shapes rank 1-2, dims 2-4, both models, degrees/radians), many units whose arc crosses "
                 "angle 0 seen from the circle centre: every unit's sphere and angle pair must describe that unit"),
+    Clause("history_oracle", "oracle", gen_o_hist, run_o_hist, judge_o_hist, site="hyperbolic.Subspace.ideal_basis_coords",
+           budget={"quick": 150, "thorough": 5000},
+           what="histories on Segment / Geodesic / Hyperplane / Subspace / Horosphere (single and composite): query, then iso @ obj, iso.apply, obj[i] = ..., "
+                "set(...), flatten_to_unit, slicing, then query again; every query equals that of a fresh object with the same data and is right in itself"),
     Clause("polygon_oracle", "oracle", gen_o_polygon, run_o_polygon, judge_o_polygon, site="hyperbolic.Polygon.circle_parameters",
            budget={"quick": 80, "thorough": 2500},
            what="Polygon.circle_parameters (single and composite polygons, 3-7 vertices, both models, degrees/radians, flatten on/off): same as the edge "
